@@ -16,10 +16,10 @@ func TestC13(t *testing.T) {
 	defer r.Finish(t)
 	var targets []Target
 	targets = append(targets, ParrotTargets(true)...)
-	for i := 0; i < mon.Pick(60, 3000); i++ {
+	for i := 0; i < mon.Pick(60, 15000); i++ {
 		targets = append(targets, RandomizedTarget(i))
 	}
-	for i := 0; i < mon.Pick(90, 5000); i++ {
+	for i := 0; i < mon.Pick(90, 25000); i++ {
 		targets = append(targets, CustomTarget(i))
 	}
 	// specs whose declared version range is wider than the supported_versions list they put
